@@ -142,7 +142,10 @@ static long long mdec(double v) { if (!(v > 0)) return -20000; if (!std::isfinit
 static void obs_case(std::shared_ptr<crsd> A, const cfg &c, vr::rng &g, bool mmat, const char *fam) {
     int n = A->nrows;
     std::unique_ptr<AMG> amg, amg4;
-    try { amg.reset(new AMG(*A, ptree_of(c))); auto A4 = std::make_shared<crsd>(*A); amgcl::backend::scale(*A4, 4.0); amg4.reset(new AMG(*A4, ptree_of(c))); }
+    // power-of-two rescaling of the matrix, moderate and extreme (a badly scaled but valid SPD M-matrix)
+    static const double SCALES[] = {4.0, 9.313225746154785e-10 /* 2^-30 */, 1073741824.0 /* 2^30 */, 0.25};
+    const double sf = SCALES[g.below(4)];
+    try { amg.reset(new AMG(*A, ptree_of(c))); auto A4 = std::make_shared<crsd>(*A); amgcl::backend::scale(*A4, sf); amg4.reset(new AMG(*A4, ptree_of(c))); }
     catch (const std::exception &e) { vr::obj o; o.str("e", "Exception").str("what", e.what()).str("coarsening", c.coarsening).str("relax", c.relax); vr::emit(o.done()); return; }
     Eigen::MatrixXd Bm(n, n), Am = Eigen::MatrixXd::Zero(n, n);
     for (int i = 0; i < n; ++i) for (ptrdiff_t p = A->ptr[i]; p < A->ptr[i+1]; ++p) Am(i, A->col[p]) += A->val[p];
@@ -150,7 +153,7 @@ static void obs_case(std::shared_ptr<crsd> A, const cfg &c, vr::rng &g, bool mma
     bool scaled = true;
     for (int j = 0; j < n; ++j) {
         e[j] = 1.0; amg->apply(e, x); for (int i = 0; i < n; ++i) Bm(i, j) = x[i];
-        if (j % 7 == 0) { vec y(n); amg4->apply(e, y); for (int i = 0; i < n; ++i) if (y[i] != 0.25 * x[i]) scaled = false; }
+        if (j % 7 == 0) { vec y(n); amg4->apply(e, y); for (int i = 0; i < n; ++i) if (y[i] != x[i] / sf) scaled = false; }
         e[j] = 0.0;
     }
     // linearity and history independence
